@@ -16,6 +16,7 @@ def Pool.phaseBit (p : Pool) : Bool :=
 
 def invBits (w : World) : String :=
   String.join (w.pools.zipIdx.map fun (p, i) =>
-    (if p.slotBit ((w.cfgs[i]?.map (·.size0)).getD .inf) then "1" else "0") ++ (if p.phaseBit then "1" else "0"))
+    (if p.slotBit ((w.cfgs[i]?.map (·.size0)).getD .inf) then "1" else "0") ++ (if p.phaseBit then "1" else "0") ++
+    (if p.lost then "0" else "1"))
 
 end Taskpool
